@@ -2219,6 +2219,80 @@ def rule_treeslot(text):
     return text, apps
 
 
+def rule_cfgunix(text):
+    """`#[cfg(unix)]` holds on this platform: the attribute is dropped in front of a block / statement; a block or statement
+    under `#[cfg(not(unix))]` (or a nested `#[cfg(target_os = "windows")]`, `#[cfg(not(any(unix, ..)))]`) is removed whole"""
+    apps = []
+    while True:
+        m = mask(text)
+        mm = re.search(r"#\[cfg\((not\()?(unix|target_os\s*=\s*\"windows\"|any\(unix,[^\]]*\))\)?\)\]\s*", m)
+        if not mm:
+            return text, apps
+        head = text[mm.start():mm.end()]
+        positive = head.replace(" ", "").startswith("#[cfg(unix)]")
+        if positive:
+            apps.append(_app("R-cfg", text, mm.start(), mm.end(), "", "cfg(unix) holds on this platform"))
+            text = text[:mm.start()] + text[mm.end():]
+            continue
+        # negative / foreign platform: remove the item that follows (a block `{..}`, `unsafe {..}`, or one statement up to `;`)
+        j = mm.end()
+        k = j
+        while k < len(m) and m[k] not in "{;":
+            k += 1
+        if k >= len(m):
+            return text, apps
+        if m[k] == "{":
+            e = match_close(m, k) + 1
+        else:
+            e = k + 1
+        apps.append(_app("R-cfg", text, mm.start(), e, "", "code for another platform (cfg(not(unix)) / windows) is not compiled here"))
+        text = text[:mm.start()] + text[e:]
+
+
+def rule_rawio(text):
+    """the raw syscalls of DiskIO::{read_sectors_sync, write_sectors_sync, flush} (io.rs)"""
+    apps = []
+    ws = r"\s*"
+    table = [
+        (_lit("unsafe { libc::pread( self.fd, buffer.as_mut_ptr() as *mut libc::c_void, size, offset as libc::off_t, ) }"), "PREAD(self.fd, &mut buffer, size, offset as i64)", "R-sys",
+         "shim: pread; its precondition is the safety condition of the unsafe call (count bytes fit in the buffer)"),
+        (_lit("unsafe { libc::pwrite( self.fd, aligned_buffer.as_ptr() as *const libc::c_void, aligned_buffer.len(), offset as libc::off_t, ) }"),
+         "pwrite_aligned(self.fd, &aligned_buffer, aligned_buffer.len(), offset as i64)", "R-sys", "shim: pwrite from the aligned buffer"),
+        (_lit("unsafe { libc::pwrite( self.fd, data.as_ptr() as *const libc::c_void, data.len(), offset as libc::off_t, ) }"),
+         "pwrite_slice(self.fd, data, data.len(), offset as i64)", "R-sys", "shim: pwrite from the caller's slice"),
+        (_lit("unsafe { if libc::fsync(self.fd) == -1 {") + r"([^{}]*)" + _lit("} }"), r"if fsync_fd(self.fd) == -1 {\1}", "R-sys", "shim: fsync"),
+        (_lit("unsafe { libc::pwrite( self.fd, scratch.as_ptr() as *const libc::c_void, scratch.len(), (block_sector * FEOX_BLOCK_SIZE as u64) as libc::off_t, ) }"),
+         "pwrite_aligned(self.fd, scratch, scratch.len(), (block_sector * FEOX_BLOCK_SIZE as u64) as i64)", "R-sys", "shim: pwrite from the scratch buffer"),
+        (_lit("fill_retirement_markers(scratch.as_mut_slice(), block_sector, remaining);"), "fill_markers_aligned(scratch, block_sector, remaining);", "R-handle",
+         "shim: the marker fill over the aligned buffer's len bytes"),
+        (r"\(sectors" + ws + r"-" + ws + r"offset\)" + ws + r"\." + ws + r"min\(RETIREMENT_WRITE_BLOCKS\)", "min_usize(sectors - offset, RETIREMENT_WRITE_BLOCKS)", "R-min", "definition of Ord::min on usize"),
+        (_lit("io::Error::last_os_error()"), "io_error_last_os()", "R-ioerr", "opaque io error (errno)"),
+        (_lit("io::Error::new( io::ErrorKind::UnexpectedEof, format!(") + r"[^;]*?,\s*" + _lit(")))"), "io_error_eof()))", "R-ioerr", "opaque io error (message dropped)"),
+        (_lit("io::Error::new( io::ErrorKind::UnexpectedEof, \"Partial write\", )"), "io_error_eof()", "R-ioerr", "opaque io error (message dropped)"),
+        (_lit("aligned_buffer.as_mut_slice().copy_from_slice(data);"), "aligned_buffer.fill_from(data);", "R-cpy", "shim: copy into the aligned buffer (panics unless the lengths agree: its precondition)"),
+        (_lit("buffer.as_slice().to_vec()"), "buffer.to_vec_copy()", "R-vec", "shim: the buffer's len bytes as a Vec"),
+    ]
+    for pat, rep, rname, why in table:
+        n = 0
+        while n < 8:
+            n += 1
+            mm = re.search(pat, text)
+            if not mm:
+                break
+            new = mm.expand(rep)
+            if new.startswith("PREAD("):
+                # which buffer type? the nearest preceding `let mut buffer = ` decides
+                before = text[:mm.start()]
+                k1 = before.rfind("AlignedBuffer::new")
+                k2 = max(before.rfind("zeroed_vec("), before.rfind("vec!["))
+                new = ("pread_aligned" if k1 > k2 else "pread_vec") + new[len("PREAD"):]
+            if new == text[mm.start():mm.end()]:
+                break
+            apps.append(_app(rname, text, mm.start(), mm.end(), new, why))
+            text = text[:mm.start()] + new + text[mm.end():]
+    return text, apps
+
+
 def rule_wbshutdown(text):
     """WriteBuffer::{initiate_shutdown, finish_shutdown} (write_buffer.rs)"""
     apps = []
